@@ -521,4 +521,10 @@ def build_extra():
     c13 = C13.build()
     c13.pid = "C01c"
     c13.only_verify = ["DelayManager.run_now", "DelayManager._process_delay_callback", "DelayManager.add"]
-    return [C, c13]
+    # queue events are dispatched by _run_handlers_sequential: order, kwargs precedence and the single completion
+    # callback are the same rules as for _run_handlers (C02's contract set, restricted)
+    from . import C02
+    c02 = C02.build()
+    c02.pid = "C01d"
+    c02.only_verify = ["EventManager._run_handlers_sequential"]
+    return [C, c13, c02]
